@@ -1,6 +1,6 @@
 (* C02 / ODP — property theorems about the frames of a slide (statements only). *)
 From Coq Require Import ZArith List Bool Sorted Permutation.
-From S2T Require Import Lib.PyStr C02.Xml C02.Pptx C02.Odp.
+From S2T Require Import Lib.PyStr C02.Xml C02.Pptx C02.Odp C02.OdpGroup.
 Import ListNotations.
 
 (* _iter_slide_frames on a rendered slide returns every frame of the slide — direct children and
@@ -41,3 +41,21 @@ Theorem C02_odp_iter_everywhere_refuted :
   exists sl, iter (fun t => match t with D_frame => true | _ => false end) (r_page sl) <> map r_frame (slide_frame_list sl).
 Proof. exact iter_frames_refuted. Qed.
 Print Assumptions C02_odp_iter_everywhere_refuted.
+
+(* ---- assembly of the slide text from title / body / other paragraphs (text_combined) *)
+(* every non-empty paragraph of the slide exactly once *)
+Theorem C02_odp_grouping_each_once : forall l : list para, Permutation (text_combined l) (map p_id l).
+Proof. exact combined_perm. Qed.
+Print Assumptions C02_odp_grouping_each_once.
+
+(* _partial: source order is kept when no paragraph carries a title or body style *)
+Theorem C02_odp_grouping_order_partial :
+  forall l : list para, forallb (fun p => negb (p_title p) && negb (p_body p)) l = true -> text_combined l = map p_id l.
+Proof. exact combined_plain_order. Qed.
+Print Assumptions C02_odp_grouping_order_partial.
+
+(* the gap: with styled paragraphs the relative order of the source is NOT kept (first title-styled
+   paragraph first, then all body-styled ones, then the rest) — documented behaviour of OdpSlide *)
+Theorem C02_odp_grouping_order_refuted : exists l : list para, text_combined l <> map p_id l.
+Proof. exact combined_order_refuted. Qed.
+Print Assumptions C02_odp_grouping_order_refuted.
